@@ -42,6 +42,10 @@ inductive Op (K V : Type) where
   | evictedCallback
   | setEvictedCallback (cb : Option Nat)
   | tick (δ : Nat)
+  /-- `GetOrCompute` whose user function takes time: the clock advances by `δ` while it runs (only if it runs) -/
+  | getOrComputeSlow (k : K) (f : V) (d : Int) (δ : Nat)
+  /-- `Compute` whose user function takes time `δ` -/
+  | computeSlow (k : K) (g : Option V → V × Bool) (d : Int) (δ : Nat)
 
 inductive Out (K V : Type) where
   | unit
